@@ -26,7 +26,9 @@ RULE = ("one run = one Resampler (or resampling actor, or MovingWindow) with dra
         "creation instant on/around/off the grid, 1-3 series at creation plus series added while running, per-call sink "
         "latency 0..3.5 periods, loop stalls up to 4 periods (incl. exactly one period), then a calm phase; non-trivial = "
         "some tick fired at least half a period late or a series was added while running; distinct = abstract digest "
-        "of (tick/add/stall, series) sequence")
+        "of (tick/add/stall, series) sequence"
+        " Also: 30-70 series in 6% of runs, resample() started 0-5.25 periods after construction, a sample counts"
+        " as delivered when the sink call returns.")
 QUICK_RUNS = 4000
 THOROUGH_RUNS = 250_000
 EXPECT_PROBES = ["created_on_grid", "created_1us_before_grid", "created_1us_after_grid", "tick_late_ge_1_period",
